@@ -32,6 +32,7 @@ Defs == (IF "leaf" \in DefShapes THEN { <<Leaf(n)>> : n \in Nm } ELSE {})
         \cup (IF "attr" \in DefShapes THEN { <<Item(n, <<<<"p", "1">>>>, NONE, FALSE, 1, <<>>)>> : n \in Nm } ELSE {})
         \cup (IF "cls" \in DefShapes THEN { <<Item(n, <<Cls("e")>>, NONE, FALSE, 1, <<>>)>> : n \in Nm } ELSE {})
         \cup (IF "impl" \in DefShapes THEN { <<Item("?", <<Cls("e"), <<"r", "n">>>>, NONE, FALSE, 1, <<>>)>> } ELSE {})      \* .e[r=n]: implicit name
+        \cup (IF "implchild" \in DefShapes THEN { <<Item("?", <<Cls("e")>>, NONE, FALSE, 1, <<Leaf(c)>>)>> : c \in Nm } ELSE {})      \* .e>c: implicit name above a key
         \cup (IF "text" \in DefShapes THEN { <<Item(n, NoA, "u", FALSE, 1, <<>>)>> : n \in Nm } ELSE {})
         \cup (IF "child" \in DefShapes THEN { <<Item(n, NoA, NONE, FALSE, 1, <<Leaf(c)>>)>> : n \in Nm, c \in Nm } ELSE {})
         \cup (IF "siblings" \in DefShapes THEN { <<Leaf(a), Leaf(b)>> : a \in Nm, b \in Nm } ELSE {})
